@@ -38,11 +38,12 @@ impl<const BITS: usize, const LIMBS: usize> Decode for Uint<BITS, LIMBS> {
                 expected: nbytes(BITS),
             });
         }
-        Self::try_from_le_slice(bytes).ok_or_else(|| {
-            #[cfg(feature = "recmo_uint_verif")]
+        #[cfg(feature = "recmo_uint_verif")]
+        if Self::try_from_le_slice(bytes).is_none() {
             crate::verif_hooks::hit(178);
-            DecodeError::BytesInvalid(format!("value is too large for Uint<{BITS}>"))
-        })
+        }
+        Self::try_from_le_slice(bytes)
+            .ok_or_else(|| DecodeError::BytesInvalid(format!("value is too large for Uint<{BITS}>")))
     }
 }
 
